@@ -344,6 +344,7 @@ func mustPassFromFlagsFrom(start, startFrom *ssa.BasicBlock, target ssa.Instruct
 	type memKey struct {
 		base  ssa.Value
 		field int
+		tag   string // "" for a boolean field; otherwise "<method>==<const>" asked of the cell `base`
 	}
 	var walkM func(b, from *ssa.BasicBlock, env map[*ssa.Phi]bool, mem map[memKey]bool, depth int)
 	var walk func(b, from *ssa.BasicBlock, env map[*ssa.Phi]bool, depth int)
@@ -400,7 +401,7 @@ func mustPassFromFlagsFrom(start, startFrom *ssa.BasicBlock, target ssa.Instruct
 		}
 		memSig := ""
 		for k, v := range mem {
-			memSig += fmt.Sprintf("|%s.%d=%v", k.base.Name(), k.field, v)
+			memSig += fmt.Sprintf("|%s.%d%s=%v", k.base.Name(), k.field, k.tag, v)
 		}
 		st := state{b, from, encode(next) + memSig}
 		if seen[st] {
@@ -416,8 +417,15 @@ func mustPassFromFlagsFrom(start, startFrom *ssa.BasicBlock, target ssa.Instruct
 				return
 			}
 			if sto, isSt := in.(*ssa.Store); isSt {
+				if _, isCell := sto.Addr.(*ssa.Alloc); isCell {
+					for k := range mem {
+						if k.tag != "" && k.base == sto.Addr {
+							delete(mem, k)
+						}
+					}
+				}
 				if fa, isFA := sto.Addr.(*ssa.FieldAddr); isFA {
-					k := memKey{fa.X, fa.Field}
+					k := memKey{fa.X, fa.Field, ""}
 					if c, isC := sto.Val.(*ssa.Const); isC && c.Value != nil && (c.Value.ExactString() == "true" || c.Value.ExactString() == "false") {
 						mem[k] = c.Value.ExactString() == "true"
 					} else {
@@ -440,9 +448,51 @@ func mustPassFromFlagsFrom(start, startFrom *ssa.BasicBlock, target ssa.Instruct
 					return
 				}
 			}
+			// `cell.Method() == const` (current.Kind() == reflect.Func): asked again later on the path, the answer is
+			// the same as long as the cell was not stored to
+			if bo, isBo := c.(*ssa.BinOp); isBo && (bo.Op == token.EQL || bo.Op == token.NEQ) {
+				if kc, isConst := bo.Y.(*ssa.Const); isConst && kc.Value != nil {
+					if call, isCall := bo.X.(*ssa.Call); isCall && call.Common().StaticCallee() != nil && len(call.Common().Args) == 1 {
+						// asked of a local cell (answers change when the cell is stored to) or of an SSA value (never)
+						var subject ssa.Value = call.Common().Args[0]
+						if ld, isLd := subject.(*ssa.UnOp); isLd && ld.Op == token.MUL {
+							if cell, isCell := ld.X.(*ssa.Alloc); isCell {
+								subject = cell
+							} else {
+								subject = nil // a load of something else: not tracked
+							}
+						}
+						if subject != nil {
+							{
+								cell := subject
+								k := memKey{cell, 0, call.Common().StaticCallee().Name() + "==" + kc.Value.ExactString()}
+								// truth of "== const" on the edge taken when (c == pol)
+								eqHolds := func(condTrue bool) bool { return (bo.Op == token.EQL) == condTrue }
+								if v, known := mem[k]; known {
+									// which successor: Succs[0] is taken when iff.Cond holds, i.e. when c has the value pol
+									cIs := v == (bo.Op == token.EQL) // value of c under the fact
+									if cIs == pol {
+										walk(b.Succs[0], b, next, depth+1)
+									} else {
+										walk(b.Succs[1], b, next, depth+1)
+									}
+									return
+								}
+								mem[k] = eqHolds(pol)
+								walk(b.Succs[0], b, next, depth+1)
+								mem[k] = eqHolds(!pol)
+								walk(b.Succs[1], b, next, depth+1)
+								delete(mem, k)
+								return
+							}
+						}
+					}
+				}
+			}
 			if u, isU := c.(*ssa.UnOp); isU && u.Op == token.MUL {
 				if fa, isFA := u.X.(*ssa.FieldAddr); isFA {
-					if v, known := mem[memKey{fa.X, fa.Field}]; known {
+					k := memKey{fa.X, fa.Field, ""}
+					if v, known := mem[k]; known {
 						if v == pol {
 							walk(b.Succs[0], b, next, depth+1)
 						} else {
@@ -450,6 +500,13 @@ func mustPassFromFlagsFrom(start, startFrom *ssa.BasicBlock, target ssa.Instruct
 						}
 						return
 					}
+					// not known yet: each edge of this test says what the field holds (until it is stored again)
+					mem[k] = pol
+					walk(b.Succs[0], b, next, depth+1)
+					mem[k] = !pol
+					walk(b.Succs[1], b, next, depth+1)
+					delete(mem, k)
+					return
 				}
 			}
 			if phi, isPhi := c.(*ssa.Phi); isPhi {
